@@ -521,6 +521,29 @@ func (fc *fnCtx) run() {
 	order := rpo(fn)
 	fc.computeLoopOrdinals(order)
 	c := g.w.contractOf(fn)
+	if c != nil && fc.parent == nil {
+		// a loop clause that designates no loop of the SSA form decides nothing: report it instead of dropping it
+		// (go/ssa fuses `for { for cond {..} .. }` into ONE loop with two back edges)
+		have := map[int]bool{}
+		for _, n := range fc.loopOrd {
+			have[n] = true
+		}
+		bad := map[int]bool{}
+		for n := range c.invariants {
+			bad[n] = !have[n]
+		}
+		for n := range c.decreases {
+			bad[n] = !have[n]
+		}
+		for n := range c.loopAssign {
+			bad[n] = !have[n]
+		}
+		for n, b := range bad {
+			if b {
+				g.oblige(obligation{name: fmt.Sprintf("contract:%s:loop%d:no-such-loop", fnKeyQ(fn), n), kind: "contract", guard: "true", cond: "false"})
+			}
+		}
+	}
 
 	for _, b := range order {
 		fc.curB = b
